@@ -81,6 +81,12 @@ T.update({
  'C18-c': ('C18', 'partial/idn/eav.c: GENERIC_RESTRICTED tested against the GENERIC bit (libidn back end only)', 'libidn build, allow_tld with exactly one of the two bits, TLD biz/name/pro'),
  'C19-c': ('C19', 'partial/idn2/is_utf8_domain.c: conversion failure detected by domain == NULL instead of the return code', 'an IDN failure that arrives together with an output buffer: treated as success'),
 })
+# round 8 (reject-side changes and the output part of the CLI)
+T.update({
+ 'C04-e': ('C04', 'src/is_ascii_domain.c: label-length check added to the hyphen branch with an off-by-one bound', 'a 63-character label whose 62nd character is a hyphen: rejected as too long'),
+ 'C09-d': ('C09', 'src/is_special_domain.c: early return NO in the "example.<tld>" fast path when the tld is not 3 letters long', 'second-to-last label "example" and a reserved last label (example.test, a.Example.localhost): not special'),
+ 'C20-d': ('C20', 'bin/main.c parse_file: the FAIL record echoes sanitize_utf8(line, len) instead of sanitize_utf8(cp, len)', 'a rejected line that starts with a space: the echo regains the space and loses its last character'),
+})
 # round 7 (reject direction of is_ipv6)
 T.update({
  'C05-d': ('C05', 'src/is_ipv4_ipv6.c is_ipv6: colon-count guard of the dotted-quad tail "tightened" (with "::", at most 5 colons before the quad)', 'a leading "::" followed by four groups and a dotted quad ([IPv6:::1:2:3:4:192.0.2.1], valid IPv6v4-comp): rejected'),
@@ -111,7 +117,7 @@ for sid, (prop, change, needs) in T.items():
                 origin='written by an independent sub-agent that saw only the property text and its own worktree',
                 validated='tools/validate_seed.sh: applies, builds without warnings, `make check` exit 0 with the change, demo exits 0 on the unchanged tree and non-zero on the changed one',
                 check_runs=runs)
-    if sid in ('C20-a', 'C20-b', 'C20-c'):
+    if sid in ('C20-a', 'C20-b', 'C20-c', 'C20-d'):
         meta['validated'] = 'confirmed in the sub-agent\'s worktree before it was removed: `make check` exit 0 (37 test programs PASS) with the change; demo.sh (builds bin/eav, runs it on the trigger input natively / under valgrind) shows the violation and a control input shows none'
     if sid == 'C17-d':
         meta['validated'] = 'confirmed in the sub-agent\'s worktree before it was removed: `make clean check` exit 0 in the default build and with RFC6531_FOLLOW_RFC5322=ON; demo.c compiled with -DRFC6531_FOLLOW_RFC5322 prints different verdicts of is_5322_local / is_6531_local for "abc \\x7f"'
